@@ -338,3 +338,11 @@ def shape_mask(shape):
         elif mi > 2:
             n = 3
     return n
+
+
+# "commands carry a command-range sequence number": the counters both clients draw it from (contracts shared with C16)
+from contracts import c16_seq
+harness(prop="C13", target="geckolib.driver.udp_socket:GeckoUdpSocket.get_and_increment_sequence_counter",
+        name="blocking_command_counter_stays_in_the_command_range")(c16_seq.sync_counter_step)
+harness(prop="C13", target="geckolib.driver.async_udp_protocol:GeckoAsyncUdpProtocol.get_and_increment_sequence_counter",
+        name="async_command_counter_stays_in_the_command_range")(c16_seq.async_counter_step)
